@@ -172,7 +172,7 @@ def file_to_blocks(include_path, lazy_file, delimiter=None):
             yield from (
                 (line, lazy_file.path) if include_path else line
                 for line in [line + delimiter for line in parts[:-1]]
-                + (parts[-1:] if not text.endswith(delimiter) else [])
+                + (parts[-1:] if parts[-1] else [])
             )
         else:
             for line in f:
@@ -194,7 +194,9 @@ def decode(block, encoding, errors, line_delimiter):
         if not text:
             return []
         parts = text.split(line_delimiter)
+        # only an empty tail is dropped: with a self-overlapping delimiter the
+        # text can end with the delimiter and still have a non-empty tail
         out = [t + line_delimiter for t in parts[:-1]] + (
-            parts[-1:] if not text.endswith(line_delimiter) else []
+            parts[-1:] if parts[-1] else []
         )
         return out
